@@ -62,6 +62,8 @@ enum ClassAtom {
 struct ClassSet {
     codepoints: CodePointSet,
     alternatives: ClassSetAlternativeStrings,
+    /// The static MayContainStrings of the class contents this set was parsed from.
+    may_contain_strings: bool,
 }
 
 impl ClassSet {
@@ -69,6 +71,7 @@ impl ClassSet {
         ClassSet {
             codepoints: CodePointSet::new(),
             alternatives: ClassSetAlternativeStrings::new(),
+            may_contain_strings: false,
         }
     }
 
@@ -105,6 +108,7 @@ impl ClassSet {
     }
 
     fn union_operand(&mut self, operand: ClassSetOperand) {
+        self.may_contain_strings |= operand.may_contain_strings();
         match operand {
             ClassSetOperand::ClassSetCharacter(c) => {
                 self.codepoints.add_one(c);
@@ -123,6 +127,7 @@ impl ClassSet {
     }
 
     fn intersect_operand(&mut self, operand: ClassSetOperand) {
+        self.may_contain_strings &= operand.may_contain_strings();
         match operand {
             ClassSetOperand::ClassSetCharacter(c) => {
                 if self.codepoints.contains(c) {
@@ -242,6 +247,19 @@ enum ClassSetOperand {
     CharacterClassEscape(CodePointSet),
     Class(ClassSet),
     ClassStringDisjunction(ClassSetAlternativeStrings),
+}
+
+impl ClassSetOperand {
+    // Static Semantics: MayContainStrings
+    fn may_contain_strings(&self) -> bool {
+        match self {
+            ClassSetOperand::ClassSetCharacter(_) | ClassSetOperand::CharacterClassEscape(_) => {
+                false
+            }
+            ClassSetOperand::Class(class) => class.may_contain_strings,
+            ClassSetOperand::ClassStringDisjunction(_) => true,
+        }
+    }
 }
 
 /// A list of strings matching some property, for use in 'v' regular expressions.
@@ -715,10 +733,11 @@ where
                 '[' if self.flags.unicode_sets => {
                     self.consume('[');
                     let negate_set = self.try_consume('^');
-                    result.push(
-                        self.consume_class_set_expression(negate_set)?
-                            .node(self.flags.icase, negate_set),
-                    );
+                    let class = self.consume_class_set_expression()?;
+                    if negate_set && class.may_contain_strings {
+                        return error("Negated class may not contain strings");
+                    }
+                    result.push(class.node(self.flags.icase, negate_set));
                 }
 
                 '[' => {
@@ -1061,8 +1080,9 @@ where
     }
 
     // CharacterClass :: ClassContents :: ClassSetExpression
-    // `in_negated_class` forbids string operands. It does not invert the result.
-    fn consume_class_set_expression(&mut self, in_negated_class: bool) -> Result<ClassSet, Error> {
+    // The result carries MayContainStrings of the contents: a union may contain strings if some
+    // operand may, an intersection if every operand may, a subtraction if its first operand may.
+    fn consume_class_set_expression(&mut self) -> Result<ClassSet, Error> {
         let mut result = ClassSet::new();
 
         let first = match self.peek() {
@@ -1070,7 +1090,7 @@ where
                 self.consume(']');
                 return Ok(result);
             }
-            Some(_) => self.consume_class_set_operand(in_negated_class)?,
+            Some(_) => self.consume_class_set_operand()?,
             None => {
                 return error("Unbalanced class set bracket");
             }
@@ -1112,7 +1132,7 @@ where
                     match first {
                         ClassSetOperand::ClassSetCharacter(first) => {
                             let ClassSetOperand::ClassSetCharacter(last) =
-                                self.consume_class_set_operand(in_negated_class)?
+                                self.consume_class_set_operand()?
                             else {
                                 return error("Invalid class set range");
                             };
@@ -1145,7 +1165,7 @@ where
                             self.consume(']');
                             return Ok(result);
                         }
-                        Some(_) => self.consume_class_set_operand(in_negated_class)?,
+                        Some(_) => self.consume_class_set_operand()?,
                         None => return error("Unbalanced class set bracket"),
                     };
                     if self.peek() == Some(0x2D /* - */) {
@@ -1153,7 +1173,7 @@ where
                         match operand {
                             ClassSetOperand::ClassSetCharacter(first) => {
                                 let ClassSetOperand::ClassSetCharacter(last) =
-                                    self.consume_class_set_operand(in_negated_class)?
+                                    self.consume_class_set_operand()?
                                 else {
                                     return error("Invalid class set range");
                                 };
@@ -1177,7 +1197,7 @@ where
                     if self.peek() == Some(0x26 /* & */) {
                         return error("Unexpected character in class set intersection");
                     }
-                    let operand = self.consume_class_set_operand(in_negated_class)?;
+                    let operand = self.consume_class_set_operand()?;
                     result.intersect_operand(self.close_class_set_operand(operand));
                     match self.next() {
                         Some(0x5D /* ] */) => return Ok(result),
@@ -1193,7 +1213,7 @@ where
             // ClassSubtraction :: ClassSubtraction -- ClassSetOperand
             ClassSetOperator::Subtraction => {
                 loop {
-                    let operand = self.consume_class_set_operand(in_negated_class)?;
+                    let operand = self.consume_class_set_operand()?;
                     result.subtract_operand(self.close_class_set_operand(operand));
                     match self.next() {
                         Some(0x5D /* ] */) => return Ok(result),
@@ -1209,10 +1229,7 @@ where
         }
     }
 
-    fn consume_class_set_operand(
-        &mut self,
-        in_negated_class: bool,
-    ) -> Result<ClassSetOperand, Error> {
+    fn consume_class_set_operand(&mut self) -> Result<ClassSetOperand, Error> {
         use ClassSetOperand::*;
         let Some(cp) = self.peek() else {
             return error("Empty class set operand");
@@ -1227,9 +1244,11 @@ where
                 }
                 self.consume('[');
                 let negate_set = self.try_consume('^');
-                let mut result =
-                    self.consume_class_set_expression(negate_set || in_negated_class)?;
+                let mut result = self.consume_class_set_expression()?;
                 if negate_set {
+                    if result.may_contain_strings {
+                        return error("Negated class may not contain strings");
+                    }
                     // The complement is taken after case folding (CharacterComplement of the
                     // folded set).
                     if self.flags.icase {
@@ -1279,15 +1298,16 @@ where
                             }
                         }
                         // A string of one character is just that character; anything else
-                        // (the empty string included) is a string, which a negated class may not contain.
+                        // (the empty string included) is a string.
                         let mut set = ClassSet::new();
                         for alternative in alternatives {
                             if alternative.len() == 1 {
                                 set.codepoints.add_one(alternative[0]);
-                            } else if in_negated_class {
-                                return error("Negated class may not contain strings");
-                            } else if !set.alternatives.contains(&alternative) {
-                                set.alternatives.0.push(alternative);
+                            } else {
+                                set.may_contain_strings = true;
+                                if !set.alternatives.contains(&alternative) {
+                                    set.alternatives.0.push(alternative);
+                                }
                             }
                         }
                         Ok(Class(set))
@@ -1331,7 +1351,6 @@ where
                                     intervals.to_vec(),
                                 )))
                             }
-                            PropertyEscapeKind::StringSet(_) if in_negated_class => error("Invalid character escape"),
                             PropertyEscapeKind::StringSet(strings) => {
                                 Ok(ClassStringDisjunction(ClassSetAlternativeStrings(strings.iter().map(|s| Box::from(*s)).collect())))
                             }
